@@ -902,7 +902,7 @@ def oracle(ctx, history, req_, pre_dump, obs, twin_factory=None, extra=None, ext
     """The property itself, evaluated on the implementation's behaviour alone.  -> list of violation kinds found."""
     found = []
     items, res, tr = req_['items'], obs['results'], obs['trace']
-    wit = {'setup': 'harness/c08.py SETUP', 'history_after_setup': history, 'request': req_,
+    wit = {'setup': 'harness/c08.py SETUP' if not (extra_witness or {}).get('note', '').startswith('one of the requests that build') else 'empty store, then `history_after_setup` (the earlier set-up requests)', 'history_after_setup': history, 'request': req_,
            'observed': {'error': obs['err_message'], 'results': [{k: r[k] for k in ('op', 'bid', 'ok', 'reason', 'message')} for r in res],
                         'per_item(store_changed, session_dirty, placeholder)': tr, 'response_envelope': obs.get('envelope')}}
 
@@ -1025,9 +1025,16 @@ class Runner:
         """Database file after SETUP (built once; every case starts from a copy)."""
         if self.snap is None:
             im = Impl(self.work)
+            done = []
             for r in SETUP:
                 o = im.run(r)
-                assert o['err'] is None and all(x['ok'] for x in o['results']), ('setup failed', r, o['results'])
+                # the set-up requests are ordinary requests: the direct oracle judges them too, and a set-up item that does not
+                # succeed is no reason to stop (every case reads the store it really starts from)
+                oracle(self.ctx, list(done), r, None, o, None, extra_witness={'note': 'one of the requests that build the common store (SETUP)'})
+                if not (o['err'] is None and all(x['ok'] for x in o['results'])):
+                    self.ctx.count('setup.request_not_successful')
+                    self.ctx.notes.append('set-up request not successful: %s -> %s' % (canon(r)[:200], [(x['op'], x['ok'], x['reason']) for x in o['results']]))
+                done.append(r)
             self.setup_store = im.store()
             im.eng.engine._data_store.dispose()
             self.snap = self.work / 'setup.snapshot'
@@ -1085,9 +1092,13 @@ class Runner:
         if self.snap2 is None:
             im = self.fresh()
             self.raw_prefix = [req([I_raw(n)]) for n, _ in RAW_SETUP]
+            done = []
             for q in self.raw_prefix:
                 o = im.run(q)
-                assert o['err'] is None and all(x['ok'] for x in o['results']), ('raw setup failed', q, o['results'])
+                oracle(self.ctx, list(done), q, None, o, None, extra_witness={'note': 'one of the requests that build the common store (RAW_SETUP)'})
+                if not (o['err'] is None and all(x['ok'] for x in o['results'])):
+                    self.ctx.count('setup.request_not_successful')
+                done.append(q)
             im.eng.engine._data_store.dispose()
             self.snap2 = self.work / 'setup2.snapshot'
             shutil.copy(im.eng.path, self.snap2)
@@ -1262,7 +1273,9 @@ def gen_all(run, ctx):
                     'corpus:read-only items then a commit')
     # (1) every menu item alone, under each version
     for ver in VERSIONS:
-        for i in (M if not quick else M[::1]):
+        for i in M:
+            if quick and ver == (1, 0) and i['b'][0] in ('get', 'activate', 'revoke', 'destroy', 'register', 'unsupported'):
+                continue                      # these shapes do not look at the version; 1.2 / 1.4 / 2.0 cover them in the quick tier
             run.history([req([i], ver=ver)], 'single', twin=False)
     # (2) header grid in front of a batch that would change the store
     body = [I_create(names=[31]), I_activate(), I_destroy(1)]
@@ -1367,6 +1380,14 @@ def gen_sweep(run, ctx):
                                     I_get(), I_revoke(None, True), I_destroy()], ver=ver, opt=opt)], 'sweep:creator creator users')
         run.sweep([req([creators[first](), I_get(None, 'GET_ATTRIBUTES'), I_activate(), I_raw('encrypt_placeholder'), I_destroy(), I_get()], opt='CONTINUE')],
                   'sweep:creator users')
+    # Register of every storable object class, then identifier-less items and a Locate
+    registers = [I_register(2, names=[110]), I_register(7, names=[111]), I_register(8, names=[112]), I_raw('register_certificate'),
+                 I_raw('register_public_key'), I_raw('register_private_key'), I_raw('register_split_key')]
+    for reg in registers:
+        for ver in [(1, 2)] + ([] if quick else [(1, 0), (2, 0)]):
+            run.sweep([req([reg, I_get(), I_get(None, 'GET_ATTRIBUTES'), I_ro('LOCATE'), I_modify(None, 'AName', None, 113), I_destroy(), I_ro('LOCATE')],
+                           ver=ver, opt='CONTINUE')], 'sweep:register users locate')
+            run.sweep([req([I_create(names=[114]), reg, I_get(None, 'GET_ATTRIBUTE_LIST'), I_destroy()], ver=ver)], 'sweep:create register users')
     # creating items that fail late (after part of their work), then items that commit
     for n in sorted(RAW_KEYPAIR | RAW_DERIVE | {x for x in names if x.startswith(('register_', 'create_'))}):
         for opt in ['CONTINUE']:
@@ -1414,7 +1435,7 @@ def gen_wire(run, ctx):
         for mx in [None, 0, 1, 64, 150, 300, 1048576]:
             run.wire([], r, mx, 'wire:fixed')
     # large batches: answers of 4-20 KiB must reach the client whole - one result per executed item in the bytes it receives
-    big = [(60, None, 'CONTINUE'), (120, None, None), (75, 1048576, 'CONTINUE'), (90, 3000, 'CONTINUE')] + ([] if quick else [(200, None, None), (64, 20000, 'STOP')])
+    big = [(60, None, 'CONTINUE'), (75, 1048576, None), (90, 3000, 'CONTINUE')] + ([] if quick else [(120, None, None), (200, None, None), (64, 20000, 'STOP')])
     for n, mx, opt in big:
         items = [I_create(names=[1000 + k]) if k % 7 else I_get(99) for k in range(n)] if opt == 'CONTINUE' else [I_create(names=[1000 + k]) for k in range(n)]
         run.wire([], req(items, opt=opt), mx, 'wire:large answer')
